@@ -7,10 +7,12 @@
 package c04
 
 import (
+	"archive/tar"
 	"bytes"
 	"encoding/json"
 	"fmt"
 	"os"
+	"path/filepath"
 	"runtime/debug"
 	"sort"
 	"strings"
@@ -20,6 +22,7 @@ import (
 	"github.com/wader/fq/pkg/decode"
 	"github.com/wader/fq/pkg/ranges"
 	"github.com/wader/fq/pkg/scalar"
+	"github.com/wader/fq/verif/lib/fqx"
 	"github.com/wader/fq/verif/lib/harness"
 	"github.com/wader/fq/verif/lib/treegen"
 	"pgregory.net/rapid"
@@ -397,7 +400,41 @@ func gapBits(n *treegen.Node) ([]byte, int64, error) {
 
 // checkGapTree is the C04 tree oracle.  top: the bytes of the top buffer when
 // known (the input file), else nil.
-func checkGapTree(t *treegen.Tree, top []byte, res *treegen.Result) (gapBitsTotal int64) {
+// bufIndex: the leaves with bits of one buffer, sorted by start and by stop.
+type bufIndex struct {
+	byStart, byStop []*treegen.Node
+}
+
+func indexBuffer(root *treegen.Node) *bufIndex {
+	ix := &bufIndex{}
+	for _, l := range treegen.SameBufferLeaves(root) {
+		if l.V.Range.Len > 0 {
+			ix.byStart = append(ix.byStart, l)
+		}
+	}
+	ix.byStop = append([]*treegen.Node(nil), ix.byStart...)
+	sort.SliceStable(ix.byStart, func(i, j int) bool { return ix.byStart[i].V.Range.Start < ix.byStart[j].V.Range.Start })
+	sort.SliceStable(ix.byStop, func(i, j int) bool { return ix.byStop[i].V.Range.Stop() < ix.byStop[j].V.Range.Stop() })
+	return ix
+}
+
+// edgeInside returns a leaf of the buffer (other than g) whose start or stop
+// lies strictly inside g, i.e. that overlaps g without containing it.
+func (ix *bufIndex) edgeInside(g *treegen.Node) *treegen.Node {
+	gs, ge := g.V.Range.Start, g.V.Range.Stop()
+	i := sort.Search(len(ix.byStart), func(i int) bool { return ix.byStart[i].V.Range.Start > gs })
+	if i < len(ix.byStart) && ix.byStart[i].V.Range.Start < ge {
+		return ix.byStart[i]
+	}
+	j := sort.Search(len(ix.byStop), func(j int) bool { return ix.byStop[j].V.Range.Stop() > gs })
+	if j < len(ix.byStop) && ix.byStop[j].V.Range.Stop() < ge {
+		return ix.byStop[j]
+	}
+	return nil
+}
+
+func checkGapTree(t *treegen.Tree, top []byte, res *treegen.Result, registered bool) (gapBitsTotal int64) {
+	indexes := map[*treegen.Node]*bufIndex{}
 	for _, n := range t.All {
 		if n.IsGap() && !n.IsCompound() {
 			gapBitsTotal += n.V.Range.Len
@@ -440,6 +477,26 @@ func checkGapTree(t *treegen.Tree, top []byte, res *treegen.Result) (gapBitsTota
 					}
 				}
 			}
+			// A gap of a nested decode and a leaf of another decode of the
+			// same buffer: the leaf may contain the gap (mp4 decodes sample
+			// data twice: the raw mdat leaf of the outer decode contains the
+			// nested sample decodes and their gaps), it may not overlap it
+			// partially.  Only for registered decoders: a generated program
+			// may hand any bits to a nested decode, also bits it reads as
+			// fields of its own; there the reference interpreter predicts
+			// every gap exactly instead (treegen.CompareGaps).
+			if p := n.Parent; registered && p != nil && !isGapFillRoot(t, p) && n.V.Range.Len > 0 {
+				ix := indexes[n.BufRoot]
+				if ix == nil {
+					ix = indexBuffer(n.BufRoot)
+					indexes[n.BufRoot] = ix
+				}
+				res.Stat("nested_gaps", 1)
+				if l := ix.edgeInside(n); l != nil {
+					a, b := nodeRng(n), nodeRng(l)
+					res.Failf("nested-gap-partially-overlaps-field", "%s (%d:%d), gap field of a nested decode, partially overlaps %s (%d:%d)", n.Path(), a.Start, a.Len, l.Path(), b.Start, b.Len)
+				}
+			}
 			// no overlap with a leaf of the decode that produced the gap
 			if p := n.Parent; p != nil && !isGapFillRoot(t, p) {
 				for _, l := range treegen.SameBufferLeaves(p) {
@@ -478,7 +535,7 @@ func checkGapTree(t *treegen.Tree, top []byte, res *treegen.Result) (gapBitsTota
 }
 
 func checkCorpusTree(tc *treegen.TreeCase, res *treegen.Result) {
-	g := checkGapTree(tc.Tree, tc.Data, res)
+	g := checkGapTree(tc.Tree, tc.Data, res, true)
 	if tc.Failed {
 		res.Label("failed-decode(undecoded-tail)")
 	}
@@ -624,13 +681,20 @@ func TestPrograms(t *testing.T) {
 			top, _ = treegen.RunFQ(p)
 		}()
 		c.Label("src:program")
+		pred := treegen.Predict(p)
+		if pred.Labels["nested-gapfill-at-offset-with-leading-gap"] {
+			c.Label("nested-gapfill-at-offset-with-leading-gap")
+		}
+		if len(res.Fails) == 0 {
+			treegen.CompareGaps(top, pred, res)
+		}
 		if top == nil {
 			c.Label("no-tree")
 		} else {
 			data := p.Data()
 			// the top buffer is the first NBits bits of the input
 			tr := treegen.Build(top)
-			g := checkGapTree(tr, data, res)
+			g := checkGapTree(tr, data, res, false)
 			if top.Err != nil {
 				c.Label("failed-decode(undecoded-tail)")
 			}
@@ -673,6 +737,28 @@ func TestSeeds(t *testing.T) {
 		{"gap-panic", true, &treegen.Program{Input: "000000", NBits: 24, Fmts: [][]*treegen.Op{{u("f1", 3), {K: "seekabs_fn", Off: 25, Kids: []*treegen.Op{{K: "utf8", Name: "a"}}}, u("f2", 8), u("f3", 13)}}}},
 		{"trailing-bit-after-synthetic", false, &treegen.Program{Input: "0b", NBits: 8, Fmts: [][]*treegen.Op{{{K: "framed", N: 8, Kids: []*treegen.Op{u("f1", 7)}}, {K: "val", Name: "f2"}}}}},
 	}
+	// a registered decoder with the shape "length delimited nested decode at
+	// a non-zero offset that leaves its first bits undecoded": a tar member
+	// that is an mp3 with 4 junk bytes in front (the mp3 decoder skips to the
+	// first frame sync).  Exercises the rule for gaps of nested decodes
+	// against the leaves of the outer decode on a real tree.
+	if mp3, err := os.ReadFile(filepath.Join(fqx.RepoDir(), "format/mp3/testdata/header-zeros-frames.mp3")); err == nil {
+		var buf bytes.Buffer
+		tw := tar.NewWriter(&buf)
+		member := append([]byte("JUNK"), mp3...)
+		_ = tw.WriteHeader(&tar.Header{Name: "a.mp3", Mode: 0o644, Size: int64(len(member)), Format: tar.FormatUSTAR})
+		_, _ = tw.Write(member)
+		_ = tw.Close()
+		req := treegen.Req{Path: "generated:tar(JUNK+format/mp3/testdata/header-zeros-frames.mp3)", Format: "tar", Mut: treegen.Mutation{Kind: "none"}}
+		res := treegen.RunData(req, buf.Bytes(), checkCorpusTree)
+		count(req, res, "src:seed")
+		if res.Status != "tree" || res.Stats["nested_gaps"] == 0 {
+			res.Failf("harness:seed-shape-lost", "tar/mp3 seed: status %s, %d gap fields of nested decodes (at least one expected)", res.Status, res.Stats["nested_gaps"])
+		}
+		report(t, t.Name(), req, res)
+	} else {
+		t.Errorf("cannot read the mp3 sample: %v", err)
+	}
 	for _, sd := range seeds {
 		res := &treegen.Result{}
 		var top *decode.Value
@@ -685,7 +771,7 @@ func TestSeeds(t *testing.T) {
 			top, _ = treegen.RunFQ(sd.p)
 		}()
 		if top != nil {
-			checkGapTree(treegen.Build(top), sd.p.Data(), res)
+			checkGapTree(treegen.Build(top), sd.p.Data(), res, false)
 		} else if len(res.Fails) == 0 {
 			res.Failf("regression:no-tree", "decode.Decode returned no tree")
 		}
